@@ -139,7 +139,10 @@ PROPS = {
         k_quick=[], k_thorough=[],
     ),
     'C15': dict(
-        v=[('u_mb2_dstlen', ['DynSizedStructure::cast', '*Tag::dst_len', 'DynSizedStructure::dst_len', 'MaybeDynSized::header', 'MaybeDynSized::as_bytes'])],
+        v=[('u_mb2_dstlen', ['DynSizedStructure::cast', '*Tag::dst_len', 'DynSizedStructure::dst_len', 'MaybeDynSized::header', 'MaybeDynSized::as_bytes',
+                             # the size of the generic view that cast() compares against comes from the Header impl and the constructors of the view
+                             'TagHeader::payload_len', 'TagHeader::set_size', 'Header::total_size',
+                             'DynSizedStructure::ref_from_bytes', 'DynSizedStructure::ref_from_slice', 'TagIter::next'])],
         k_quick=[], k_thorough=[],
     ),
     'C18': dict(
